@@ -8,7 +8,8 @@ LEVEL = "proof"
 PROPERTIES_MODULE = "Properties.C06"
 COQ_TARGETS = ["Properties/C06.vo", "Model/Dispatch.vo"]
 THEOREMS = ["C06_card_monotone", "C06_card_positive", "C06_sum_antitone",
-            "C06_increment_is_renyi_spacing", "C06_register_threshold", "C06_register_antitone"]
+            "C06_increment_is_renyi_spacing", "C06_register_threshold", "C06_register_antitone",
+            "C06_sequential_and_any_parallel_sum_agree", "C06_any_sum_tree_is_accurate", "C06_estimates_in_inverse_ratio_of_sums"]
 AXIOMS_ALLOWED = setflib.REAL_AXIOMS
 TRANSLATORS = [("setsketch-formulas", setflib.translate), ("setsketch-register-law", setflib.translate_setlaw)]
 TRUSTED_BASE = [
@@ -23,7 +24,10 @@ TRUSTED_BASE = [
 ]
 ASSUMPTIONS = ["PARTIAL: expected relative error O(1/m) and the 15% window on the relative spread are statistical and not decided "
                "(observed relative errors are listed in the evidence, never used as a pass criterion)",
-               "parallel estimator: agreement up to rounding is measured (1e-9 relative), the rounding bound is not proved"]
+               "parallel estimator: the two binary64 sums of the m non-negative terms agree within (1 +- 2^-53)^m for EVERY reduction tree "
+               "(C06_sequential_and_any_parallel_sum_agree, Flocq, no overflow since each term is at most 1); assumed: rayon's sum is such a "
+               "tree with 0.0 as identity, and both sides compute a term with the same libm calls (translator template); the four "
+               "operations after the sum are the same code on both sides; the implementation sweep uses 1e-9 relative"]
 
 
 def correspond(run):
